@@ -2,8 +2,8 @@
 # usage: tools/run_all.sh quick|thorough  -> out/all-<tier>.log with one line per property
 cd "$(dirname "$0")/.."
 TIER="$1"
-: > out/all-$TIER.log
-for p in C01 C02 C03 C04 C05 C06 C07 C08 C09 C10 C11 C12 C13 C14 C15 C16 C17 C18 C19; do
+[ -n "$PROPS" ] || : > out/all-$TIER.log
+for p in ${PROPS:-C01 C02 C03 C04 C05 C06 C07 C08 C09 C10 C11 C12 C13 C14 C15 C16 C17 C18 C19}; do
   s=$(date +%s)
   ./check $p $TIER > out/all-$TIER-$p.log 2>&1
   rc=$?
